@@ -141,6 +141,10 @@ class ExponentialOfLevyModel(LevyModel):
     def x0_value(self):
         return self.log_spot
 
+    def levy_exponent_pure_jump(self, x: complex) -> complex:
+        """pure-jump part of the exponent of the underlying Lévy model L (whose triplet this model carries)"""
+        return self.levy_model.levy_exponent_pure_jump(x)
+
     def intensity(self) -> float:
         return self.levy_model.intensity()
 
